@@ -19,7 +19,7 @@ Variable L : libm R.
 Variable L2 : libm2 R.
 
 Lemma roundtrip_scalars : forall tiny G t0 prim m a e t p o,
-  trig_ok t -> 0 < G * (m + pm prim) -> shape_ok a e -> -1 < e * cf t -> tiny <= pm prim ->
+  trig_ok t -> 0 < G * (m + pm prim) -> shape_ok a e -> -1 < e * cf t -> tiny < pm prim ->
   from_orbit_err RNum tiny G prim m a e t = inr p ->
   orbit_from_particle_err RNum L L2 tiny G t0 p prim = inr o ->
   o_a o = a /\ o_e o = e /\ o_d o = a * (1 - e*e) / (1 + e * cf t) /\
@@ -92,7 +92,7 @@ Qed.
 
 (* inclination: with ci = cos inc, 0 < inc < PI and libm's acos = acos *)
 Lemma roundtrip_inc : forall tiny G t0 prim m a e t p o inc,
-  trig_ok t -> 0 < G * (m + pm prim) -> shape_ok a e -> -1 < e * cf t -> tiny <= pm prim ->
+  trig_ok t -> 0 < G * (m + pm prim) -> shape_ok a e -> -1 < e * cf t -> tiny < pm prim ->
   l_acos L2 = acos -> ci t = cos inc -> 0 < inc < PI ->
   from_orbit_err RNum tiny G prim m a e t = inr p ->
   orbit_from_particle_err RNum L L2 tiny G t0 p prim = inr o ->
@@ -184,7 +184,7 @@ Proof.
 Qed.
 
 Lemma roundtrip_Omega : forall tiny G t0 prim m a e t p o inc Om,
-  trig_ok t -> 0 < G * (m + pm prim) -> shape_ok a e -> -1 < e * cf t -> tiny <= pm prim ->
+  trig_ok t -> 0 < G * (m + pm prim) -> shape_ok a e -> -1 < e * cf t -> tiny < pm prim ->
   si t = sin inc -> 0 < inc < PI -> cO t = cos Om -> sO t = sin Om -> - PI < Om <= PI ->
   from_orbit_err RNum tiny G prim m a e t = inr p ->
   orbit_from_particle_err RNum L L2 tiny G t0 p prim = inr o ->
@@ -200,14 +200,14 @@ Proof.
      pvx p - pvx prim = v0 * ((e + cf t) * (- ci t * co t * sO t - cO t * so t) - sf t * (co t * cO t - ci t * so t * sO t)) /\
      pvy p - pvy prim = v0 * ((e + cf t) * (ci t * co t * cO t - sO t * so t) - sf t * (co t * sO t + ci t * so t * cO t)) /\
      pvz p - pvz prim = v0 * ((e + cf t) * co t * si t - sf t * si t * so t)).
-  { unfold from_orbit_err in Hp. cbn [neqb nltb none nzero nneg nmul nadd nsub ndiv nsqrt RNum] in Hp.
+  { unfold from_orbit_err in Hp. cbn [neqb nltb nleb none nzero nneg nmul nadd nsub ndiv nsqrt RNum] in Hp.
     assert (E0 : Reqb a 0 = false) by (apply Reqb_false; destruct Hsh; lra).
     assert (E1 : Reqb e 1 = false) by (apply Reqb_false; destruct Hsh; lra).
     assert (E2 : Rltb e 0 = false) by (apply Rltb_false; destruct Hsh; lra).
     assert (E3 : (if Rltb 1 e then Rltb 0 a else Rltb a 0) = false).
     { destruct (Rltb 1 e) eqn:K; [apply Rltb_true in K|apply Rltb_false in K]; apply Rltb_false; destruct Hsh; lra. }
     assert (E5 : Rltb (e * cf t) (Ropp 1) = false) by (apply Rltb_false; lra).
-    assert (E6 : Rltb (pm prim) tiny = false) by (apply Rltb_false; lra).
+    assert (E6 : Rleb (pm prim) tiny = false) by (apply Rleb_false; lra).
     rewrite E0, E1, E2, E3, E5, E6 in Hp. injection Hp as Hp. subst p. cbn [pm px py pz pvx pvy pvz].
     assert (Haq : 0 < a * (1 - e*e)).
     { destruct Hsh as [[He Ha]|[He Ha]].
